@@ -956,3 +956,21 @@ seed("c06-from-vecs-strictly-increasing", "C06", SP, "        //TODO check that 
 seed("n-c06-from-vecs-non-decreasing", "C06", SP, "        //TODO check that the vectors are the correct length val.len() == row_index.len()\n        Self {",
      '        if col_start.windows( 2 ).any( |w| w[ 0 ] > w[ 1 ] ) { panic!( "Sparse matrix from_vecs: col_start must not decrease." ); }\n        Self {', "SILENT",
      "neutral on well-formed input: only decreasing column starts are refused")
+
+# ---------------------------------------------------------------- rules added for the round-8 mutants (conditional paths added to intact routines)
+seed("c03-matmul-skip-zero-sum-columns", "C03", ARI, "            result.set_col( col, self.multiply( &mul.get_col( col ) ) );",
+     "            let column = mul.get_col( col );\n            if column.sum() != T::zero() { result.set_col( col, self.multiply( &column ) ); }", "product/matmul")
+seed("c03-transpose-empty-return", "C03", OPS, "    pub fn transpose_in_place(&mut self) {\n        if self.rows == self.cols {",
+     "    pub fn transpose_in_place(&mut self) {\n        if self.mat.is_empty() { return; }\n        if self.rows == self.cols {", "transpose_in_place/every-path")
+seed("c06-from-triplets-empty-special-case", "C06", SP, "        triplets.sort_by_key( |triplet| triplet.1 ); // Sort by column first",
+     "        if triplets.is_empty() { return Self::from_vecs( rows, cols, vec![], vec![], vec![ 0; cols.max( 1 ) ] ); }\n        triplets.sort_by_key( |triplet| triplet.1 ); // Sort by column first",
+     "from_triplets/early-return")
+seed("n-c06-from-triplets-empty-well-formed", "C06", SP, "        triplets.sort_by_key( |triplet| triplet.1 ); // Sort by column first",
+     "        if triplets.is_empty() { return Self::from_vecs( rows, cols, vec![], vec![], vec![ 0; cols + 1 ] ); }\n        triplets.sort_by_key( |triplet| triplet.1 ); // Sort by column first",
+     "SILENT", "neutral: the empty matrix built directly, with cols + 1 column starts")
+seed("c19-trapezium2d-one-cell-dropped", "C19", ME2, '        if var >= self.nvars { panic!( "Mesh2D trapezium: index larger than # variables." ); }\n        let mut sum: f64 = 0.0;',
+     '        if var >= self.nvars { panic!( "Mesh2D trapezium: index larger than # variables." ); }\n        if self.nx <= 2 || self.ny <= 2 { return 0.0; }\n        let mut sum: f64 = 0.0;', "quadrature-early-return/trapezium")
+seed("n-c19-trapezium2d-no-cell", "C19", ME2, '        if var >= self.nvars { panic!( "Mesh2D trapezium: index larger than # variables." ); }\n        let mut sum: f64 = 0.0;',
+     '        if var >= self.nvars { panic!( "Mesh2D trapezium: index larger than # variables." ); }\n        if self.nx < 2 || self.ny < 2 { return 0.0; }\n        let mut sum: f64 = 0.0;', "SILENT",
+     "neutral: the empty sum for a mesh without a cell (the loops would not run; for nx = 0 the original wraps around and panics on the first access, outside the property's grids)")
+seed("c12-polydiv-noise-break", "C12", PA, "            q = q + t.clone();", "            if !q.is_zero() && q.coeffs[ 0 ] + t.coeffs[ 0 ] == q.coeffs[ 0 ] { break; }\n            q = q + t.clone();", "exit/no-other")
